@@ -899,8 +899,9 @@ pub trait StoreFor<T: Storable>: Configurable + private::StoreCallbacks<T> {
         if let Some(idmap) = self.idmap() {
             if idmap.resolve_temp_ids && id.starts_with(T::temp_id_prefix()) {
                 if let Some(handle) = resolve_temp_id(id) {
-                    //the number must be a handle of this store (a larger one would wrap around in the narrower handle type)
-                    if handle < self.store().len() {
+                    //the number must be the handle of a live item of this store (a larger one would wrap around
+                    //in the narrower handle type, the slot of a removed item resolves to nothing)
+                    if let Some(Some(_)) = self.store().get(handle) {
                         return Ok(T::HandleType::new(handle));
                     }
                 }
